@@ -15,7 +15,8 @@ RULE = ("bounded-exhaustive enumeration, level by level, of every connected labe
         "shards partition the space so every input is generated once; an input is counted in states when it is "
         "well-posed (exact determinant over Q(i) of its tableau, decided per topology/kind/palette class) and "
         "judged; non-trivial = judged and the reference solution is not identically zero; distinctness is by "
-        "construction of the enumeration and re-measured per shard by hashing the canonical netlist")
+        "construction of the enumeration and re-measured per shard by hashing the canonical netlist"
+        ' Additions: palettes eq (all values equal), wide (<= 8 decades), small (nV/nA sources); label sets plain, nested-odd and ids (node names that are branch ids); every solution object is asked again in the opposite order and a second object built from NumPy-scalar values is asked powers-first.')
 ASSUMPTIONS = ["numpy.linalg.solve is accurate to 1e-12 relative on the palettes (condition numbers measured)",
                "continuous parameters are represented by the palettes (distinct primes / Gaussian rationals / decades)",
                "python Fraction arithmetic is exact"]
